@@ -49,6 +49,18 @@ theories/C15/Proofs.vos theories/C15/Proofs.vok theories/C15/Proofs.required_vos
 theories/C15/Props.vo theories/C15/Props.glob theories/C15/Props.v.beautified theories/C15/Props.required_vo: theories/C15/Props.v theories/C15/Model.vo theories/C15/Proofs.vo
 theories/C15/Props.vio: theories/C15/Props.v theories/C15/Model.vio theories/C15/Proofs.vio
 theories/C15/Props.vos theories/C15/Props.vok theories/C15/Props.required_vos: theories/C15/Props.v theories/C15/Model.vos theories/C15/Proofs.vos
+theories/C21/Examples.vo theories/C21/Examples.glob theories/C21/Examples.v.beautified theories/C21/Examples.required_vo: theories/C21/Examples.v theories/Base/Tactics.vo theories/C21/Model.vo
+theories/C21/Examples.vio: theories/C21/Examples.v theories/Base/Tactics.vio theories/C21/Model.vio
+theories/C21/Examples.vos theories/C21/Examples.vok theories/C21/Examples.required_vos: theories/C21/Examples.v theories/Base/Tactics.vos theories/C21/Model.vos
+theories/C21/Model.vo theories/C21/Model.glob theories/C21/Model.v.beautified theories/C21/Model.required_vo: theories/C21/Model.v theories/Base/Tactics.vo
+theories/C21/Model.vio: theories/C21/Model.v theories/Base/Tactics.vio
+theories/C21/Model.vos theories/C21/Model.vok theories/C21/Model.required_vos: theories/C21/Model.v theories/Base/Tactics.vos
+theories/C21/Proofs.vo theories/C21/Proofs.glob theories/C21/Proofs.v.beautified theories/C21/Proofs.required_vo: theories/C21/Proofs.v theories/Base/Tactics.vo theories/C21/Model.vo
+theories/C21/Proofs.vio: theories/C21/Proofs.v theories/Base/Tactics.vio theories/C21/Model.vio
+theories/C21/Proofs.vos theories/C21/Proofs.vok theories/C21/Proofs.required_vos: theories/C21/Proofs.v theories/Base/Tactics.vos theories/C21/Model.vos
+theories/C21/Props.vo theories/C21/Props.glob theories/C21/Props.v.beautified theories/C21/Props.required_vo: theories/C21/Props.v theories/Base/Tactics.vo theories/C21/Model.vo theories/C21/Proofs.vo
+theories/C21/Props.vio: theories/C21/Props.v theories/Base/Tactics.vio theories/C21/Model.vio theories/C21/Proofs.vio
+theories/C21/Props.vos theories/C21/Props.vok theories/C21/Props.required_vos: theories/C21/Props.v theories/Base/Tactics.vos theories/C21/Model.vos theories/C21/Proofs.vos
 theories/C25/Examples.vo theories/C25/Examples.glob theories/C25/Examples.v.beautified theories/C25/Examples.required_vo: theories/C25/Examples.v theories/Base/Tactics.vo theories/Lib/ArchTree.vo theories/C25/Model.vo
 theories/C25/Examples.vio: theories/C25/Examples.v theories/Base/Tactics.vio theories/Lib/ArchTree.vio theories/C25/Model.vio
 theories/C25/Examples.vos theories/C25/Examples.vok theories/C25/Examples.required_vos: theories/C25/Examples.v theories/Base/Tactics.vos theories/Lib/ArchTree.vos theories/C25/Model.vos
